@@ -560,10 +560,16 @@ pub fn tamper_union(t: &mut Tape, ty: &Ty, doc: &mut Value, alpha: &str, mismatc
         // names on both sides of "type" in sort order, never a declared one
         format!("{}{}{}", t.pick(&["aa", "zz", "Type", "type_"]), alpha, salt)
     };
+    let mut type_key = "type".to_string();
     let (new_tag, new_member, what) = if !mismatch {
         (tag.clone(), tag.clone(), "same variant")
     } else {
-        match t.draw(4) {
+        match t.draw(5) {
+            4 => {
+                // tag and member agree, but the discriminator is not spelled "type"
+                type_key = t.pick(&["kind", "Type", "tpye", "type ", "@type", ""]).to_string();
+                (tag.clone(), tag.clone(), "discriminator key misspelled")
+            }
             0 if declared.len() > 1 => {
                 let others: Vec<&String> = declared.iter().filter(|d| **d != tag).collect();
                 (t.pick(&others).to_string(), tag.clone(), "tag names another declared variant")
@@ -577,10 +583,11 @@ pub fn tamper_union(t: &mut Tape, ty: &Ty, doc: &mut Value, alpha: &str, mismatc
     let k_tag = serde_json::to_string(&new_tag).ok()?;
     let k_member = serde_json::to_string(&new_member).ok()?;
     let v_member = serde_json::to_string(&member).ok()?;
+    let k_type = serde_json::to_string(&type_key).ok()?;
     let raw = if value_first {
-        format!("{{{}:{},\"type\":{}}}", k_member, v_member, k_tag)
+        format!("{{{}:{},{}:{}}}", k_member, v_member, k_type, k_tag)
     } else {
-        format!("{{\"type\":{},{}:{}}}", k_tag, k_member, v_member)
+        format!("{{{}:{},{}:{}}}", k_type, k_tag, k_member, v_member)
     };
     *cur = Value::String(RAW_PLACEHOLDER.into());
     Some((raw, format!("{}, {} (type={:?} member={:?})", what, if value_first { "value first" } else { "tag first" }, new_tag, new_member)))
@@ -941,12 +948,16 @@ fn undecodable(t: &mut Tape, ty: &Ty, alpha: &str) -> Option<String> {
             2 => "00000000-0000-0000-0000-00000000000".into(),
             _ => "g0000000-0000-0000-0000-000000000000".into(),
         },
-        Ty::Prim(Prim::Rid) => match t.draw(5) {
+        Ty::Prim(Prim::Rid) => match t.draw(8) {
             0 => with("zz"),
             1 => String::new(),
             2 => "ri.a.b.c".into(),
             3 => "ri.A.b.c.d".into(),
-            _ => "ri.a.b.c.".into(),
+            4 => "ri.a.b.c.".into(),
+            // a whole identifier with something after it, or before it
+            5 => format!("ri.a.b.c.d!{}", alpha),
+            6 => format!("ri.a.b.c.loc {}", alpha),
+            _ => format!("{} ri.a.b.c.d", alpha),
         },
         Ty::Prim(Prim::Bearertoken) => match t.draw(7) {
             0 => String::new(),
